@@ -179,7 +179,9 @@ func (w *World) NewEndpoint(addr *net.UDPAddr) *simnet.SimConn {
 func (w *World) Close() {
 	w.Router.Close()
 	w.ClientConn.Close()
-	w.ServerConn.Close()
+	if w.ServerConn != nil {
+		w.ServerConn.Close()
+	}
 }
 
 // ---- bubble runner ----
@@ -260,4 +262,21 @@ func DefaultQUICConfig() *quic.Config {
 // Ctx returns a context with a virtual-time timeout.
 func Ctx(d time.Duration) (context.Context, context.CancelFunc) {
 	return context.WithTimeout(context.Background(), d)
+}
+
+type sink struct{}
+
+func (sink) RecvPacket(simnet.Packet) {}
+
+// Blackhole makes addr swallow every datagram (no reader needed).
+func (w *World) Blackhole(addr net.Addr) { w.Router.AddNode(addr, sink{}) }
+
+// NewWorldBlackholeServer is NewWorld, but nothing listens at the server address: datagrams sent there vanish.
+func NewWorldBlackholeServer(rtt time.Duration) *World {
+	r := NewRouter(rtt/2, nil, nil, nil)
+	w := &World{Router: r, ClientKeys: &KeyLog{}, ServerKeys: &KeyLog{}}
+	w.ClientConn = simnet.NewBlockingSimConn(ClientAddr, r)
+	r.AddNode(ServerAddr, sink{})
+	r.SetEndpoints(ClientAddr, ServerAddr)
+	return w
 }
